@@ -45,6 +45,11 @@ What the translation relies on (trusted base of the source tie, together with Sp
     - `p + x + y` is one offset `x + y` computed in uint64; `bytep + E * 8` (syntactic factor 8 or sizeof of an 8-byte
       type) is the cell offset `(E * 8) >> 3` (exact, also when `E * 8` wraps); unsigned `x / 2^k` with a literal
       divisor is `x >> k`.
+  * (q120 AVX2 product kernels, q120_arithmetic_avx2.c) a `__m256i` LOCAL is 4 consecutive uint64 slots; only LANE-WISE
+    intrinsics are accepted and applied lane by lane with their documented semantics (see `vlane`: setzero, set1_epi64x,
+    loadu_si256, storeu_si256 of a vector local, add_epi64, and_si256, srli_epi64, mul_epu32 = exact product of the low
+    32 bits); shuffles / blends / permutes / anything else are rejected; the `(int)` conversion of a uint64_t shift count
+    is dropped (counts >= 64 are `Err.ub` either way: the IR is only stricter).
 """
 import json
 import re, os, subprocess, sys
@@ -56,10 +61,11 @@ SRC = "spqlios/coeffs/coeffs_arithmetic.c"
 SRCS = [SRC, "spqlios/arithmetic/vec_znx.c", "spqlios/coeffs/coeffs_arithmetic_avx.c", "spqlios/arithmetic/vec_znx_avx.c",
         "spqlios/q120/q120_arithmetic_ref.c", "spqlios/q120/q120_arithmetic_simple.c",
         "spqlios/arithmetic/vec_znx_dft.c", "spqlios/arithmetic/scalar_vector_product.c", "spqlios/arithmetic/znx_small.c",
-        "spqlios/arithmetic/vector_matrix_product.c"]
+        "spqlios/arithmetic/vector_matrix_product.c", "spqlios/q120/q120_arithmetic_avx2.c"]
 # per-file ISA flags (as in spqlios/CMakeLists.txt): the intrinsics need their target features to parse
 EXTRA_CFLAGS = {"spqlios/coeffs/coeffs_arithmetic_avx.c": ["-mavx2", "-mfma"],
-                "spqlios/arithmetic/vec_znx_avx.c": ["-mavx2", "-mfma"]}
+                "spqlios/arithmetic/vec_znx_avx.c": ["-mavx2", "-mfma"],
+                "spqlios/q120/q120_arithmetic_avx2.c": ["-mavx2"]}
 # vector types: number of 64-bit cells
 VEC_CELLS = {"__m256i": 4, "__m256i_u": 4, "__m128i": 2, "__m128i_u": 2}
 # intrinsics modelled as IR primitives on lanes of 64-bit cells
@@ -94,6 +100,9 @@ TARGETS = [
     "fft64_vec_znx_dft", "fft64_vec_znx_idft", "fft64_vec_znx_idft_tmp_a",
     "fft64_svp_prepare_ref", "fft64_svp_apply_dft_ref", "fft64_znx_small_single_product",
     "fft64_vmp_prepare_contiguous_ref", "fft64_vmp_apply_dft_to_dft_ref", "fft64_vmp_apply_dft_ref",
+    # q120 AVX2 product kernels (spqlios/q120/q120_arithmetic_avx2.c): `__m256i` locals are 4 uint64 slots, the
+    # lane-wise intrinsics are applied lane by lane
+    "q120_vec_mat1col_product_baa_avx2", "q120_vec_mat1col_product_bbb_avx2", "q120_vec_mat1col_product_bbc_avx2",
 ]
 
 # opaque kernels of the module layer: name -> (argument kinds, field of `module->mod.fft64` the object argument must be)
@@ -359,6 +368,7 @@ class FnTranslator:
         self.arrays = {}     # decl id of a local array -> (first slot, number of slots)
         self.pslot_elem = {}  # decl id of a pointer local declared through the general path -> element kind
         self.param_elem = {}  # pointer index -> 'opaque' | 'struct:<name>' (parameters registered through the general path)
+        self.vecs = {}       # decl id of a `__m256i` local -> first of its 4 slots
 
     def err(self, n, msg):
         raise Unsupported(f"{self.name}: {msg} [{n.get('kind')}] at {where(n)}")
@@ -958,6 +968,79 @@ class FnTranslator:
             self.err(n, f"vector intrinsic '{fname}'")
         self.err(n, "vector expression")
 
+    # ---- `__m256i` LOCALS, scalarised: a vector local is 4 consecutive uint64 slots; only LANE-WISE intrinsics are
+    # accepted (lane k of the result depends on lane k of the operands only), so assigning the 4 slots one after the
+    # other is the parallel assignment.  Semantics of the intrinsics (Intel Intrinsics Guide), per 64-bit lane:
+    #   _mm256_setzero_si256() = 0;  _mm256_set1_epi64x(a) = a (as a 64-bit pattern);  _mm256_loadu_si256(p) = p[k];
+    #   _mm256_add_epi64 = wrapping +;  _mm256_and_si256 = &;  _mm256_mul_epu32(a,b) = (a & 0xFFFFFFFF) * (b & 0xFFFFFFFF)
+    #   (exact, < 2^64);  _mm256_srli_epi64(a, n) = a >> n (the IR reports `Err.ub` for n >= 64, where the
+    #   instruction returns 0; a `uint64_t` count is used without its conversion to `int`, see `vlane`);  _mm256_storeu_si256(p, v): p[k] = v[k].
+    def is_vec256(self, n):
+        return strip_cv(n.get("type", {}).get("qualType", "")) == "__m256i"
+
+    def vec_local(self, n):
+        c = n
+        while c.get("kind") in ("ParenExpr", "ImplicitCastExpr") and c.get("castKind", "NoOp") in ("NoOp", "LValueToRValue"):
+            c = c["inner"][0]
+        if c.get("kind") == "DeclRefExpr" and c["referencedDecl"]["id"] in self.vecs:
+            return self.vecs[c["referencedDecl"]["id"]]
+        return None
+
+    def vptr(self, n):
+        """pointer argument of a vector load / store: (base, offset in cells)"""
+        try:
+            return self.pexpr(n)
+        except Unsupported:
+            c = n
+            while c.get("kind") in ("ParenExpr", "ImplicitCastExpr", "CStyleCastExpr") and c.get("castKind", "NoOp") in ("NoOp", "BitCast"):
+                if c.get("castKind") == "BitCast":
+                    self.check_ptr_cast(c, c["inner"][0])
+                c = c["inner"][0]
+            pvv = self.pv(c)
+            if pvv["k"] != "mem" or pvv["unit"] != 8:
+                self.err(n, "vector load / store through a pointer that is not a pointer to 64-bit cells")
+            return (pvv["base"], ostr(pvv["off"]))
+
+    def vlane(self, n, k):
+        """lane `k` (a uint64 expression) of a `__m256i` expression"""
+        b = self.vec_local(n)
+        if b is not None:
+            return f"(.var {b + k})"
+        kind = n.get("kind")
+        if kind == "ParenExpr" or (kind == "ImplicitCastExpr" and n.get("castKind") == "NoOp"):
+            return self.vlane(n["inner"][0], k)
+        if kind == "CallExpr":
+            fname = self.callee_name(n)
+            args = n["inner"][1:]
+            if fname == "_mm256_setzero_si256" and not args:
+                return "(.lit 0)"
+            if fname == "_mm256_set1_epi64x" and len(args) == 1:
+                if scalar_ty(args[0], "broadcast value") != "i64":
+                    self.err(n, f"'{fname}' argument type")
+                return f"(.cast .u64 {self.expr(args[0])})"
+            if fname == "_mm256_loadu_si256" and len(args) == 1:
+                base, off = self.vptr(args[0])
+                return f"(.pload {base} {'(.lit %d)' % k if off == '(.lit 0)' else '(.bin .add .u64 %s (.lit %d))' % (off, k)})"
+            if fname in ("_mm256_add_epi64", "_mm256_and_si256") and len(args) == 2:
+                op = "add" if fname == "_mm256_add_epi64" else "band"
+                return f"(.bin .{op} .u64 {self.vlane(args[0], k)} {self.vlane(args[1], k)})"
+            if fname == "_mm256_mul_epu32" and len(args) == 2:
+                lo = lambda e: f"(.bin .band .u64 {e} (.lit 4294967295))"
+                return f"(.bin .mul .u64 {lo(self.vlane(args[0], k))} {lo(self.vlane(args[1], k))})"
+            if fname == "_mm256_srli_epi64" and len(args) == 2:
+                if scalar_ty(args[1], "shift count") != "i32":
+                    self.err(n, f"'{fname}' count type")
+                cnt = args[1]
+                # `(int)H` with `uint64_t H`: the count is passed WITHOUT the conversion to int.  Counts >= 64 are
+                # `Err.ub` in the IR either way the conversion goes (2^31 <= H would convert to a negative or small int,
+                # for which the instruction shifts by another amount: the IR is stricter there, never different)
+                if cnt.get("kind") == "ImplicitCastExpr" and cnt.get("castKind") == "IntegralCast" \
+                        and scalar_ty(cnt["inner"][0], "shift count") in ("u64", "u32"):
+                    cnt = cnt["inner"][0]
+                return f"(.bin .shr .u64 {self.vlane(args[0], k)} {self.expr(cnt)})"
+            self.err(n, f"vector intrinsic '{fname}' (not modelled lane-wise)")
+        self.err(n, "vector expression")
+
     def lvalue_read(self, c):
         while c.get("kind") == "ParenExpr":
             c = c["inner"][0]
@@ -1038,6 +1121,11 @@ class FnTranslator:
         k = n.get("kind")
         if k == "ParenExpr":
             return self.effect(n["inner"][0])
+        if k == "BinaryOperator" and n["opcode"] == "=" and self.is_vec256(n["inner"][0]):
+            vb = self.vec_local(n["inner"][0])
+            if vb is None:
+                self.err(n, "assignment to a vector that is not a vector local")
+            return self.seq([("assign", vb + i, self.vlane(n["inner"][1], i)) for i in range(4)])
         if k == "BinaryOperator" and n["opcode"] == "=" and self.is_ptr(n["inner"][0]):
             lhs, rhs = n["inner"]
             while lhs.get("kind") == "ParenExpr":
@@ -1174,6 +1262,11 @@ class FnTranslator:
                         b, o = self.pexpr(arg)
                         pargs.append(f"({b}, {o})")
                 return ("extcall", fname, sargs, pargs)
+            if fname == "_mm256_storeu_si256" and len(args) == 2 and self.vec_local(args[1]) is not None:
+                vb = self.vec_local(args[1])
+                b, o = self.vptr(args[0])
+                return self.seq([("pstore", b, "(.lit %d)" % k if o == "(.lit 0)" else "(.bin .add .u64 %s (.lit %d))" % (o, k),
+                                  f"(.var {vb + k})") for k in range(4)])
             if fname in VEC_STORE and len(args) == 2:
                 b, o = self.pexpr(args[0])
                 v, lanes = self.vexpr(args[1])
@@ -1239,6 +1332,18 @@ class FnTranslator:
                     self.err(d, "declaration with a storage class")
                 if "init" not in d or not d.get("inner"):
                     self.err(d, f"declaration of '{d.get('name')}' without initialiser")
+                if self.is_vec256(d):
+                    exprs = [c for c in d["inner"] if not c.get("kind", "").endswith("Comment")]
+                    if len(exprs) != 1:
+                        self.err(d, "vector declaration with unexpected children")
+                    vals = [self.vlane(exprs[0], i) for i in range(4)]
+                    b0 = len(self.slot_names)
+                    for i in range(4):
+                        self.slot_names.append(f"{d.get('name', '?')}[{i}]")
+                        self.slot_ty[b0 + i] = "u64"
+                    self.vecs[d["id"]] = b0
+                    out += [("assign", b0 + i, v) for i, v in enumerate(vals)]
+                    continue
                 if is_array_type(qual(d)):
                     # local array: consecutive slots, every element initialised at the declaration
                     kind, elem, dims = parse_ctype(qual(d))
